@@ -143,7 +143,7 @@ fn scenario_with(words: &[u16], shape: Option<&[(Option<usize>, Role)]>) -> (Sce
             }
             _ => {}
         }
-        cas.push(Ca { parent, key: i, module, not_after: 86400 * 365, cert_fault: None, versions, extra_res: None, ta_alt: vec![] });
+        cas.push(Ca { parent, key: i, module, not_after: 86400 * 365, cert_fault: None, versions, extra_res: None, ta_alt: vec![], sia_under_parent_mft: false });
         roles.push(role);
     }
     for i in 0..ncas {
